@@ -845,6 +845,9 @@ def dist_terms(case, res):
     """(model terms, relation terms evaluated in python on the implementation's outputs)"""
     if res["exc"] is not None:
         return ["false"], [("exception", False)]
+    for key in ("l", "p", "z", "zc_own", "zc", "pts", "lp", "tlp", "tlp_bc"):   # (clog_prob may legitimately be -inf)
+        if not all(math.isfinite(x) for x in _flat(res[key])):
+            return ["false"], [("relaxed distribution: non-finite %s although every closed form is finite for these logits" % key, False)]
     B, V = case["B"], case["V"]
     bern = case["dtype"] == "bern"
     eps = cz(round(Fr(torch.finfo(F64).eps) * FXS))
